@@ -4,7 +4,7 @@
     the (offset, length) pairs of the CRYPTO frames of [ws]. *)
 From Coq Require Import List ZArith Bool Lia.
 From V Require Import Gen.Params Lib.Hex Wire.Varint Wire.VarintProofs UFrames.Model UFrames.ProofsBase
-  UFrames.Proofs UFrames.ProofsFlight.
+  UFrames.Proofs UFrames.ProofsFlight UFrames.ScramModel UFrames.ProofsSni.
 Import ListNotations.
 Open Scope Z_scope.
 
@@ -130,6 +130,7 @@ Proof.
   - inversion H. simpl. rewrite app_nil_r. reflexivity.
   - inversion Hwf as [|? ? Hw Hr]; subst.
     destruct ((0 <? _) && (_ <? zlen (encode ws))); [discriminate|].
+    destruct (negb (strict_ok (encode ws))); [discriminate|].
     destruct (chd_frames (S (length (encode ws))) (encode ws)) as [cs0| |] eqn:E; try discriminate.
     apply (chd_pairs ws Hw _ 0%nat) in E. subst cs0.
     destruct (existsb _ (wpairs ws)); [discriminate|].
@@ -141,6 +142,7 @@ Lemma validate_loop_inl ps : forall i budgets n acc c,
 Proof.
   induction ps as [|p r IH]; intros i budgets n acc c H; cbn [validate_loop] in H; [discriminate|].
   destruct ((0 <? _) && (_ <? zlen p)); [inversion H; lia|].
+  destruct (negb (strict_ok p)); [inversion H; lia|].
   destruct (chd_frames (S (length p)) p) as [cs0| |]; [|inversion H; lia|inversion H; lia].
   destruct (existsb _ cs0); [inversion H; lia|]. eapply IH; eassumption.
 Qed.
@@ -211,3 +213,164 @@ Lemma flight_validated_example :
   exists wss, flight_frames [[FCrypto (-2) 0; FPing]; [FPad 3; FCrypto 0 (-2)]] false [11; 12; 13; 14; 15] = Ok wss
               /\ validate (map encode wss) [0] 5 = 0.
 Proof. eexists. split; [vm_compute; reflexivity|vm_compute; reflexivity]. Qed.
+
+(* ---------- arbitrary payloads (what a custom QUICFlightFrameBuilder may return) ---------- *)
+(* After the repair C09-validate-initial-flight-strict-frames the strict reader runs first; on a
+   payload it accepts, the lenient clienthellod reader can neither panic nor see other frames. *)
+Lemma unbe_nonneg l : forall acc, Forall (fun b => 0 <= b < 256) l -> 0 <= acc -> 0 <= unbe l acc.
+Proof.
+  induction l as [|x l IH]; intros acc Hl Ha; simpl; [assumption|].
+  inversion Hl; subst. apply IH; [assumption|lia].
+Qed.
+
+Lemma bytes_ok_skipn n d : bytes_ok d -> bytes_ok (skipn n d).
+Proof.
+  intros H. unfold bytes_ok in *. rewrite <- (firstn_skipn n d) in H. apply Forall_app in H. apply H.
+Qed.
+
+Lemma bytes_ok_firstn n d : bytes_ok d -> bytes_ok (firstn n d).
+Proof.
+  intros H. unfold bytes_ok in *. rewrite <- (firstn_skipn n d) in H. apply Forall_app in H. apply H.
+Qed.
+
+Lemma vparse_props b v n rest :
+  bytes_ok b -> vparse b = inr (v, n, rest) ->
+  0 <= v /\ bytes_ok rest /\ zlen rest < zlen b /\ exists b0 r, b = b0 :: r /\ 0 <= b0 < 256.
+Proof.
+  intros Hb H. destruct b as [|b0 r]; [discriminate|]. inversion Hb as [|? ? Hb0 Hr]; subst.
+  unfold vparse in H.
+  set (k := if b0 / 64 =? 0 then 0%nat else if b0 / 64 =? 1 then 1%nat else if b0 / 64 =? 2 then 3%nat else 7%nat) in *.
+  destruct (length r <? k)%nat; [discriminate|]. inversion H; subst.
+  split; [apply unbe_nonneg; [apply bytes_ok_firstn; assumption|apply Z.mod_pos_bound; lia]|].
+  split; [apply bytes_ok_skipn; assumption|].
+  split; [unfold zlen; rewrite skipn_length; simpl length; lia|].
+  exists b0, r. split; [reflexivity|assumption].
+Qed.
+
+Lemma chd_vli_of_vparse' b v n rest :
+  bytes_ok b -> vparse b = inr (v, n, rest) -> chd_vli b = Some (v, rest).
+Proof.
+  intros Hb H. destruct (vparse_props b v n rest Hb H) as (_ & _ & _ & b0 & r & -> & Hb0).
+  eapply chd_vli_of_vparse; eassumption.
+Qed.
+
+Lemma chd_strip_eq fuel k b y :
+  b <> 0 -> exists f, chd_frames fuel (repeat 0 k ++ b :: y) = chd_frames f (b :: y).
+Proof.
+  intros Hb. destruct k as [|k]; [exists fuel; reflexivity|].
+  destruct fuel as [|f]; [exists 0%nat; reflexivity|]. rewrite chd_strip. exists f.
+  destruct b; [congruence| |]; reflexivity.
+Qed.
+
+Lemma repeat_snoc_app k (x : list Z) : repeat 0 k ++ 0 :: x = repeat 0 (S k) ++ x.
+Proof. induction k as [|k IH]; [reflexivity|]. simpl. f_equal. exact IH. Qed.
+
+Lemma chd_of_strict : forall fuel p ws,
+  strict_frames fuel p = Some ws -> bytes_ok p -> zlen p <= 2 ^ 48 ->
+  forall fuel' k,
+    match chd_frames fuel' (repeat 0 k ++ p) with
+    | ChdOk cs => cs = wpairs ws
+    | ChdErr => True
+    | ChdPanic => False
+    end.
+Proof.
+  induction fuel as [|f IH]; intros p ws H Hb Hlen fuel' k; [discriminate|].
+  cbn [strict_frames] in H. destruct p as [|t r].
+  - (* end of payload *)
+    inversion H; subst. rewrite app_nil_r. destruct k as [|k].
+    + destruct fuel'; simpl; [exact I|reflexivity].
+    + destruct fuel' as [|f']; [exact I|].
+      replace (repeat 0 (S k)) with (repeat 0 (S k) ++ []) by apply app_nil_r. rewrite chd_strip.
+      destruct f'; simpl; [exact I|reflexivity].
+  - inversion Hb as [|? ? Ht Hr]; subst.
+    assert (Hlr : zlen r <= 2 ^ 48) by (unfold zlen in *; simpl length in Hlen; lia).
+    destruct (Z.eqb_spec t 0) as [->|Ht0].
+    { (* PADDING byte *)
+      destruct (strict_frames f r) as [ws'|] eqn:E; [|discriminate]. inversion H; subst.
+      rewrite repeat_snoc_app. apply (IH r ws' E Hr Hlr fuel' (S k)). }
+    destruct (chd_strip_eq fuel' k t r Ht0) as (f'' & ->).
+    destruct (Z.eqb_spec t 1) as [->|Ht1].
+    { (* PING *)
+      destruct (strict_frames f r) as [ws'|] eqn:E; [|discriminate]. inversion H; subst.
+      destruct f'' as [|f2]; [exact I|]. cbn [chd_frames chd_vli].
+      change (1 / 64) with 0. change (2 ^ 0 - 1 =? 0) with true. cbv iota.
+      change (1 mod 64 =? 0) with false. change (1 mod 64 =? 1) with true. cbv iota.
+      apply (IH r ws' E Hr Hlr f2 0%nat). }
+    destruct (Z.eqb_spec t 6) as [->|Ht6]; [|discriminate].
+    (* CRYPTO *)
+    destruct (vparse r) as [?|[[off n1] r1]] eqn:E1; [discriminate|].
+    destruct (vparse_props r off n1 r1 Hr E1) as (Hoff & Hr1 & Hl1 & _).
+    destruct (vparse r1) as [?|[[len n2] r2]] eqn:E2; [discriminate|].
+    destruct (vparse_props r1 len n2 r2 Hr1 E2) as (Hlen0 & Hr2 & Hl2 & _).
+    destruct (Z.ltb_spec (zlen r2) len) as [?|Hfit]; [discriminate|].
+    destruct (strict_frames f (drop len r2)) as [ws'|] eqn:E; [|discriminate]. inversion H; subst.
+    destruct f'' as [|f2]; [exact I|]. cbn [chd_frames].
+    assert (E6 : chd_vli (6 :: r) = Some (6, r)) by reflexivity. rewrite E6.
+    change (6 =? 0) with false. change (6 =? 1) with false. change (6 =? 6) with true. cbv iota.
+    rewrite (chd_vli_of_vparse' r off n1 r1 Hr E1). rewrite (chd_vli_of_vparse' r1 len n2 r2 Hr1 E2).
+    destruct (Z.ltb_spec (2 ^ 48) len); [lia|].
+    destruct r2 as [|z zs] eqn:Er2; [exact I|]. rewrite <- Er2 in *.
+    assert (Hd : bytes_ok (drop len r2)) by (apply bytes_ok_skipn; assumption).
+    assert (Hdl : zlen (drop len r2) <= 2 ^ 48) by (rewrite zlen_drop by lia; lia).
+    pose proof (IH (drop len r2) ws' E Hd Hdl f2 0%nat) as Hrec. simpl app in Hrec.
+    destruct (chd_frames f2 (drop len r2)) as [cs'| |]; [|exact I|contradiction].
+    subst cs'. unfold wpairs. cbn [wcryptos flat_map app map fst snd]. rewrite zlen_take by lia. reflexivity.
+Qed.
+
+Lemma validate_loop_strict ps : forall i budgets n acc,
+  Forall (fun p => bytes_ok p /\ zlen p <= 2 ^ 48) ps ->
+  match validate_loop i ps budgets n acc with
+  | inl c => c <> 0 /\ c <> -1
+  | inr cs => exists wss, Forall2 (fun p ws => strict_frames (S (length p)) p = Some ws) ps wss
+                          /\ cs = acc ++ concat (map wpairs wss)
+  end.
+Proof.
+  induction ps as [|p r IH]; intros i budgets n acc Hall; cbn [validate_loop].
+  - exists []. split; [constructor|]. simpl. rewrite app_nil_r. reflexivity.
+  - inversion Hall as [|? ? (Hb & Hl) Hr]; subst.
+    destruct ((0 <? _) && (_ <? zlen p)); [lia|].
+    unfold strict_ok. destruct (strict_frames (S (length p)) p) as [ws|] eqn:Es; cbn [negb]; [|lia].
+    pose proof (chd_of_strict _ p ws Es Hb Hl (S (length p)) 0%nat) as Hc. simpl app in Hc.
+    destruct (chd_frames (S (length p)) p) as [cs0| |]; [|lia|contradiction]. subst cs0.
+    destruct (existsb _ (wpairs ws)); [lia|].
+    specialize (IH (S i) budgets n (acc ++ wpairs ws) Hr).
+    destruct (validate_loop (S i) r budgets n (acc ++ wpairs ws)) as [c|cs]; [assumption|].
+    destruct IH as (wss & HF & ->). exists (ws :: wss). split; [constructor; assumption|].
+    cbn [map concat]. rewrite app_assoc. reflexivity.
+Qed.
+
+(** validateInitialFlight on ARBITRARY payloads (bytes, each shorter than 2^48): it never panics,
+    and when it accepts, every payload is a well-formed sequence of PADDING, PING and complete
+    CRYPTO frames (the strict reader parses it) whose CRYPTO frames cover every byte of the
+    stream with data that is really present in the payload. *)
+Lemma validate_sound ps budgets n :
+  Forall (fun p => bytes_ok p /\ zlen p <= 2 ^ 48) ps ->
+  validate ps budgets n <> -1 /\
+  (validate ps budgets n = 0 ->
+   exists wss, Forall2 (fun p ws => strict_frames (S (length p)) p = Some ws) ps wss /\
+     forall j, 0 <= j < n -> exists ws o d, In ws wss /\ In (o, d) (wcryptos ws) /\ o <= j < o + zlen d).
+Proof.
+  intros Hall. unfold validate. destruct ps as [|p0 r]; [split; [lia|discriminate]|].
+  pose proof (validate_loop_strict (p0 :: r) 0 budgets n [] Hall) as Hl.
+  destruct (validate_loop 0 (p0 :: r) budgets n []) as [c|cs].
+  - split; [lia|]. intros ->. lia.
+  - destruct Hl as (wss & HF & ->). simpl app.
+    destruct (forallb _ _) eqn:Ef; [|split; [lia|discriminate]].
+    split; [lia|]. intros _. exists wss. split; [assumption|]. intros j Hj.
+    rewrite forallb_forall in Ef. specialize (Ef j).
+    assert (Hin : In j (map Z.of_nat (seq 0 (Z.to_nat n)))).
+    { apply in_map_iff. exists (Z.to_nat j). split; [lia|]. apply in_seq. lia. }
+    apply Ef in Hin. unfold covered_by in Hin. apply existsb_exists in Hin as ([o l] & Hin & Hr).
+    apply in_concat in Hin as (prs & Hprs & Hin). apply in_map_iff in Hprs as (ws & <- & Hws).
+    unfold wpairs in Hin. apply in_map_iff in Hin as ([o' d] & Heq & Hin). inversion Heq; subst.
+    cbn [fst snd] in *. apply andb_prop in Hr as [Hr1 Hr2]. apply Z.leb_le in Hr1. apply Z.ltb_lt in Hr2.
+    exists ws, o, d. repeat split; try assumption; lia.
+Qed.
+
+(* regression: the former counterexamples (known findings uflight/validate/accepts-malformed and
+   uflight/validate/panic) are now rejected as "does not parse" (class 3) *)
+Lemma validate_rejects_former_witnesses :
+  validate [[6; 0; 20; 65; 66; 67; 68; 69; 70; 71; 72]] [0] 20 = 3 /\
+  validate [[64; 6; 0; 20] ++ repeat 65 20] [0] 20 = 3 /\
+  validate [[6; 0; 224; 0; 0; 0; 0; 0; 0; 0]] [0] 20 = 3.
+Proof. repeat split; vm_compute; reflexivity. Qed.
